@@ -291,7 +291,13 @@ class Seams(object):
                 self._sim_path = filename
                 self._sim_buffer = io.BytesIO()
                 options = dict(options or {})
-                options["in_memory"] = True
+                # the workbook is assembled in a buffer; whatever temporary files xlsxwriter wants for the mode the
+                # caller asked for (constant_memory, ...) go to the scratch directory of this run, not to /tmp
+                scratch = os.path.join(os.environ.get("VERIF_SCRATCH", "/dev/shm/verif-scratch-x"), "xlsx-%d" % os.getpid())
+                os.makedirs(scratch, exist_ok=True)
+                options.setdefault("tmpdir", scratch)
+                if not options.get("constant_memory"):
+                    options["in_memory"] = True
                 super().__init__(self._sim_buffer, options)
 
             def close(self):
